@@ -153,6 +153,16 @@ def nestedSamplingLoop (maxIt : Option Nat) (s : NS K) (below : Bool) (steps : L
     | .error e => .error e
     | .ok (s', b) => if !s'.finalised && b then finalise s' else .ok s'
 
+/-- a run resumed any number of times at iteration boundaries: every segment is one call of
+`nested_sampling_loop` (its own cap, the value of the stopping test at its start, its steps) on the state the
+previous segment left behind (pickling at an iteration boundary is the identity on this state) -/
+def runSegments : NS K → List (Option Nat × Bool × List (List K × Bool)) → Except Err (NS K)
+  | s, [] => .ok s
+  | s, (maxIt, below, steps) :: rest =>
+    match nestedSamplingLoop maxIt s below steps with
+    | .error e => .error e
+    | .ok s' => runSegments s' rest
+
 end order
 
 /-! ### Part 2 — `_INSIntegralState`, linear domain -/
